@@ -1,6 +1,9 @@
+import os
 import pathlib
 import re
 import shutil
+import stat
+import sys
 from typing import List
 
 from conductor.context import Context
@@ -12,6 +15,26 @@ _EXPERIMENT_TASK_REGEX = re.compile(
 )
 
 _REGULAR_TASK_REGEX = re.compile(r"^(?P<name>[a-zA-Z0-9_-]+)\.task\Z")
+
+
+def _remove_tree(path: pathlib.Path) -> None:
+    """
+    Removes a directory tree, also when it contains read-only directories
+    (removing an entry needs write permission on its parent). What still cannot
+    be removed is reported instead of being silently left behind.
+    """
+
+    def make_writable_and_retry(function, failed_path, _exc):
+        parent = os.path.dirname(failed_path)
+        for to_fix in (parent, failed_path):
+            if not os.path.islink(to_fix):
+                os.chmod(to_fix, stat.S_IRWXU)
+        function(failed_path)
+
+    if sys.version_info >= (3, 12):
+        shutil.rmtree(path, onexc=make_writable_and_retry)
+    else:
+        shutil.rmtree(path, onerror=make_writable_and_retry)
 
 
 def register_command(subparsers):
@@ -91,4 +114,4 @@ def main(args):
             for exp_path in to_delete:
                 if args.verbose:
                     print("Deleting", _display_path(exp_path, cwd))
-                shutil.rmtree(exp_path, ignore_errors=True)
+                _remove_tree(exp_path)
